@@ -35,7 +35,9 @@ PROFILES = {
     'mirror-idle': dict(BASE, verboseMethods=1, logAnswers=1, structDump=1, pIssue=2, maxBatch=1, pGuardCancel=0, pGuardIssue=0, wQuery=0, wReact=0, wImmediate=1, wReset=0, wExitEnter=0),
     'mirror-plans': dict(BASE, verboseMethods=1, logAnswers=1, structDump=1, planDump=1, wPlanEdit=3, wExtStatus=2, pSucceed=150, pFail=40, pHeadStatus=50, pGuardCancel=40, pGuardIssue=20, pIssue=15, maxBatch=1),
     'burst':     dict(BASE, maxBatch=14, pIssue=300, pGuardIssue=500, pGuardCancel=120, wSaveLoad=10, wPlanEdit=3, wExtStatus=1, pSucceed=150, pFail=30, pPlanInCb=300, planDump=0, wReset=1, wExitEnter=1, wRecreate=10),
+    'alloc':     dict(BASE, _nolog=1, _extra='-DVH_ALLOC_HOOK', _flavours=['gcc', 'clang'], pendq=0, wSaveLoad=10, wPlanEdit=3, wExtStatus=1, pSucceed=100, pFail=20, pPlanInCb=100, wReset=1, wExitEnter=1, maxBatch=10, pIssue=100, pGuardIssue=200),
     'ordinary':  dict(BASE, wSaveLoad=8, wPlanEdit=2, wExtStatus=1, pSucceed=80, pFail=20, pPlanInCb=40, wReset=1, wExitEnter=1, wRecreate=5, replica=0),
+    'copies':    dict(BASE, copies=40, pIssue=0, pGuardCancel=0, pGuardIssue=0, maxBatch=3, wReset=1, wExitEnter=1, wImmediate=3),
     'payload':   dict(BASE, pGuardCancel=60, pGuardIssue=100, pIssue=80, maxBatch=4),
 }
 
@@ -50,7 +52,7 @@ SHAPE_PROPS = {
     'C07': dict(profiles=['plans-edit', 'plans'], title='plan storage'),
     'C08': dict(profiles=['serial'], title='save/load'),
     'C09': dict(profiles=['history', 'replica', 'single'], title='history'),
-    'C11': dict(profiles=['ordinary', 'burst'], title='memory safety / UB / assertions / allocation', flavours={'quick': ['clang-asan', 'gcc'], 'thorough': ['clang-asan', 'gcc-asan', 'gcc', 'clang-dev', 'gcc-O2']}),
+    'C11': dict(profiles=['ordinary', 'burst', 'alloc'], title='memory safety / UB / assertions / allocation', flavours={'quick': ['clang-asan', 'gcc'], 'thorough': ['clang-asan', 'gcc-asan', 'gcc', 'clang-dev', 'gcc-O2']}),
     'C12': dict(profiles=['utility', 'utility-hostile'], title='utility / random selection'),
     'C16': dict(profiles=['mirror', 'mirror-idle', 'mirror-plans'], title='logger / structure report'),
     'C13': dict(profiles=['single', 'mixed'], title='queries'),
@@ -85,16 +87,16 @@ TIERS = {
 }
 
 def knob_args(profile):
-    return ['%s=%s' % (k, v) for k, v in sorted(PROFILES[profile].items())]
+    return ['%s=%s' % (k, v) for k, v in sorted(PROFILES[profile].items()) if not k.startswith('_')]
 
 # ---------------------------------------------------------------------------------------------
 
 def build_job(job):
-    sj, flavour = job
+    sj, flavour, extra = job
     hdr = '<hfsm2/machine_dev.hpp>' if vlib.FLAVOURS[flavour][2] == 'dev' else '<hfsm2/machine.hpp>'
     tu = shp.emit_tu(sj, header=hdr)
-    binp, out = vlib.build_one(tu, flavour, name=sj['name'])
-    return (sj, flavour, binp, out)
+    binp, out = vlib.build_one(tu, flavour, extra_flags=extra, name=sj['name'])
+    return (sj, flavour, extra, binp, out)
 
 def run_job(job):
     """one harness run + offline check; executed in a worker process"""
@@ -103,8 +105,9 @@ def run_job(job):
     tmpd = vlib.scratch()
     tag = '%s-%s-%s-%d-%d' % (sj['name'], flavour, profile, seed, os.getpid())
     logp = os.path.join(tmpd, tag + '.log')
-    args = ['steps=%d' % steps, 'seed=%d' % seed, 'log=' + logp] + knob_args(profile)
-    rc, out, err = vlib.run_bin(binp, args, timeout=600)
+    nolog = bool(PROFILES[profile].get('_nolog'))
+    args = ['steps=%d' % (steps * (8 if nolog else 1)), 'seed=%d' % seed] + ([] if nolog else ['log=' + logp]) + knob_args(profile)
+    rc, out, err = vlib.run_bin(binp, args, timeout=600, stdout_path=logp if nolog else None)
     res = {'shape': sj['name'], 'desc': sj['desc'], 'cfg': sj['cfg'], 'sj': sj, 'flavour': flavour, 'profile': profile, 'seed': seed, 'steps': steps, 'rc': rc, 'args': args}
     skey = vlib.sanitizer_key(err) if err else None
     if skey: res['sanitizer'] = skey; res['stderr'] = err[-3000:]
@@ -164,16 +167,23 @@ def shape_engine(prop, tier, seed, keep=False):
     if joindiff and 'clang-dev' not in flavours: flavours.append('clang-dev')
     shapeset = shp.shape_set(seed, T['n_random'])
     t0 = time.time()
-    builds = vlib.pmap(build_job, [(sj, fl) for sj in shapeset for fl in flavours])
+    wanted = set()
+    for profile in conf['profiles']:
+        P = PROFILES[profile]
+        for fl in P.get('_flavours', flavours): wanted.add((fl, P.get('_extra', '')))
+    builds = vlib.pmap(build_job, [(sj, fl, ex) for sj in shapeset for fl, ex in sorted(wanted)])
     tb = time.time() - t0
-    ok = []
-    for sj, fl, binp, out in builds:
+    ok = {}
+    for sj, fl, ex, binp, out in builds:
         if binp is None: V.harness_errors.append('build failed: shape %s flavour %s: %s' % (sj['name'], fl, out[:400].replace('\n', ' | ')))
-        else: ok.append((sj, fl, binp))
+        else: ok[(sj['name'], fl, ex)] = (sj, binp)
     jobs = []
     rng = random.Random(seed * 1000003 + 17)
-    for sj, fl, binp in ok:
-        for pi, profile in enumerate(conf['profiles']):
+    for pi, profile in enumerate(conf['profiles']):
+      P = PROFILES[profile]
+      for (nm, fl, ex), (sj, binp) in sorted(ok.items()):
+        if ex != P.get('_extra', '') or fl not in P.get('_flavours', flavours): continue
+        if True:
             for si in range(T['seeds']):
                 rseed = (seed * 7919 + si * 104729 + pi * 1299709 + (zlib.crc32(sj['name'].encode()) & 0xffff)) % 2000000011 + 1
                 jobs.append((sj, fl, binp, profile, rseed, T['steps'], prop, keep))
@@ -227,6 +237,123 @@ def adjudicate(V, prop, results, shapeset, flavours, extra):
     return V.finish(cov, ASSUME)
 
 # ---------------------------------------------------------------------------------------------
+
+# ---------------------------------------------------------------------------------------------
+# C10: behaviour is a function of inputs, callbacks and random numbers only (differential runs)
+
+def c10_job(job):
+    sj, flavour, binp, mode, seed, steps = job
+    tmpd = vlib.scratch(); tag = 'c10-%s-%s-%s-%d-%d' % (sj['name'], flavour, mode, seed, os.getpid())
+    base = os.path.join(tmpd, tag + '.base.log')
+    common = ['steps=%d' % steps, 'seed=%d' % seed] + knob_args('mixed' if mode != 'threads' else 'mixed')
+    out = {'shape': sj['name'], 'desc': sj['desc'], 'cfg': sj['cfg'], 'sj': sj, 'flavour': flavour, 'profile': mode, 'seed': seed, 'steps': steps, 'args': common, 'viol': [], 'ops': 0, 'variants': 0, 'lines': 0}
+    def read(p):
+        try:
+            with open(p) as f: return f.read()
+        except OSError: return None
+    def ops_of(txt): return txt.count('\nO ')
+    def rm(p):
+        try: os.unlink(p)
+        except OSError: pass
+    if mode == 'prefill':
+        rc, so, se = vlib.run_bin(binp, common + ['log=' + base])
+        ref = read(base); rm(base)
+        if rc != 0 or ref is None: out['error'] = 'base run failed rc=%s %s' % (rc, se[-300:]); return out
+        out['ops'] = ops_of(ref); out['lines'] = ref.count('\n')
+        for fill, off in ((0, 0), (255, 0), (165, 1), (256, 3), (257, 0), (85, 2)):
+            p = os.path.join(tmpd, tag + '.v%d_%d.log' % (fill, off))
+            rc, so, se = vlib.run_bin(binp, common + ['log=' + p, 'fillByte=%d' % fill, 'addrOffset=%d' % off])
+            txt = read(p); rm(p); out['variants'] += 1
+            if txt != ref:
+                la = ref.split('\n'); lb = (txt or '').split('\n'); i = 0
+                while i < min(len(la), len(lb)) and la[i] == lb[i]: i += 1
+                out['viol'].append(('prefill|behaviour-depends-on-prior-storage-contents-or-address', {'fillByte': fill, 'addrOffset': off, 'line': i, 'reference': la[i:i + 3], 'variant': lb[i:i + 3], 'args': common}))
+    elif mode == 'threads':
+        n = 4
+        p = os.path.join(tmpd, tag + '.thr.log')
+        rc, so, se = vlib.run_bin(binp, common + ['log=' + p, 'threads=%d' % n], timeout=900)
+        skey = vlib.sanitizer_key(se)
+        if skey: out['viol'].append((skey, {'stderr': se[-1500:]}))
+        for t in range(n):
+            tp = p + '.%d' % t
+            a = read(tp); rm(tp)
+            sp = os.path.join(tmpd, tag + '.single%d.log' % t)
+            rc2, so2, se2 = vlib.run_bin(binp, ['steps=%d' % steps, 'seed=%d' % (seed + t)] + knob_args('mixed') + ['log=' + sp])
+            b = read(sp); rm(sp); out['variants'] += 1
+            if b is not None: out['ops'] += ops_of(b); out['lines'] += b.count('\n')
+            if a != b and not skey:
+                out['viol'].append(('threads|instance-behaves-differently-next-to-instances-on-other-threads', {'thread': t, 'args': common}))
+    elif mode == 'memcheck':
+        p = os.path.join(tmpd, tag + '.vg.log')
+        import subprocess
+        try:
+            r = subprocess.run(['valgrind', '-q', '--error-exitcode=99', '--track-origins=no', binp] + ['steps=%d' % min(steps, 150), 'seed=%d' % seed, 'log=' + p] + knob_args('mixed'), capture_output=True, text=True, timeout=900)
+            txt = read(p) or ''; rm(p); out['ops'] = ops_of(txt); out['variants'] = 1; out['lines'] = txt.count('\n')
+            if r.returncode == 99 or '== Invalid' in r.stderr or 'uninitialised' in r.stderr:
+                out['viol'].append((vlib.sanitizer_key(r.stderr) or 'memcheck:error', {'stderr': r.stderr[-1500:]}))
+            elif r.returncode != 0: out['error'] = 'valgrind run rc=%d %s' % (r.returncode, r.stderr[-300:])
+        except subprocess.TimeoutExpired: out['timeout'] = True
+    return out
+
+def c10_engine(prop, tier, seed, keep=False):
+    V = vlib.Verdict(prop, tier, seed)
+    vlib.prune_cache()
+    T = TIERS[tier]
+    shapeset = shp.shape_set(seed, 4 if tier == 'quick' else 24)
+    # the same shapes with the built-in generator instead of the scripted one (where a random region exists)
+    extra = []
+    for sj in shapeset:
+        if any(n['strategy'] == 'Random' for n in sj['nodes']):
+            c = dict(sj['cfg']); c['builtin_rng'] = 1
+            e = dict(sj); e['cfg'] = c; e['name'] = sj['name'] + '_brng'; extra.append(e)
+    allshapes = shapeset + extra
+    plain = ['gcc', 'clang'] if tier == 'quick' else ['gcc', 'clang', 'gcc-O2', 'clang-dev']
+    builds = vlib.pmap(build_job, [(sj, fl, '') for sj in allshapes for fl in plain] + [(sj, 'clang-tsan', '') for sj in allshapes[:(3 if tier == 'quick' else 10)]])
+    jobs = []; n = 0
+    for sj, fl, ex, binp, out in builds:
+        if binp is None: V.harness_errors.append('build failed: %s %s: %s' % (sj['name'], fl, out[:300].replace('\n', ' | '))); continue
+        rseed = (seed * 7919 + (zlib.crc32(sj['name'].encode()) & 0xffff)) % 2000000011 + 1
+        if fl == 'clang-tsan': jobs.append((sj, fl, binp, 'threads', rseed, 1500 if tier == 'quick' else 8000))
+        else:
+            jobs.append((sj, fl, binp, 'prefill', rseed, T['steps']))
+            if fl == 'gcc' and (n % (3 if tier == 'quick' else 1) == 0): jobs.append((sj, fl, binp, 'memcheck', rseed, 150))
+            n += 1
+    # copies: the ordinary shape engine with pure callbacks (lock-step original / copy), as extra results
+    with cf.ProcessPoolExecutor(max_workers=vlib.JOBS) as ex:
+        res = list(ex.map(c10_job, jobs, chunksize=1))
+    cjobs = []
+    for sj, fl, ex_, binp, out in builds:
+        if binp is None or fl == 'clang-tsan' or sj['cfg'].get('builtin_rng'): continue
+        rseed = (seed * 104729 + (zlib.crc32(sj['name'].encode()) & 0xffff)) % 2000000011 + 1
+        cjobs.append((sj, fl, binp, 'copies', rseed, T['steps'], prop, keep))
+    with cf.ProcessPoolExecutor(max_workers=vlib.JOBS) as ex:
+        cres = list(ex.map(run_job, cjobs, chunksize=1))
+    evals = 0; distinct = set(); samples = []; variants = 0; lines = 0
+    for r in res:
+        run = {k: r[k] for k in ('shape', 'desc', 'cfg', 'flavour', 'profile', 'seed', 'steps', 'args', 'sj')}
+        if r.get('timeout'): V.inconclusive.append(run); continue
+        if 'error' in r: V.harness_errors.append('%s %s %s: %s' % (r['shape'], r['flavour'], r['profile'], r['error'])); continue
+        for key, first in r['viol']: V.add(key, 1, first, run)
+        evals += r['ops'] * max(1, r['variants']); variants += r['variants']; lines += r['lines']
+        distinct.add((r['shape'], r['flavour'], r['profile']))
+        if len(samples) < 4: samples.append({'shape': r['shape'], 'desc': r['desc'][:200], 'flavour': r['flavour'], 'mode': r['profile'], 'operations': r['ops'], 'variants-compared': r['variants'], 'log-lines-compared': r['lines']})
+    stats = {}
+    for r in cres:
+        if 'error' in r: V.harness_errors.append('%s %s copies: %s' % (r['shape'], r['flavour'], r['error'])); continue
+        run = {k: r[k] for k in ('shape', 'desc', 'cfg', 'flavour', 'profile', 'seed', 'steps', 'args', 'sj')}
+        s = r['summary']
+        for key, e in s['violations'].items():
+            p = e['property']; k = key.split('.', 1)[1]
+            if p == 'C10': V.add(k, e['count'], e['first'], run)
+            else: V.add_other(p, k, e['count'])
+        for k, v in s['stats'].items():
+            if k.startswith('C10'): stats[k] = stats.get(k, 0) + v
+        for h in r['nt'].get('C10', []): distinct.add(h)
+        evals += s['stats'].get('C10.lockstep-operations', 0)
+    cov = {'evaluations': evals, 'distinct_nontrivial': len(distinct), 'samples': samples,
+           'rule': 'evaluations = API operations executed in differential runs (same program, seed and callback answers; instance storage pre-filled with 0x00/0xFF/0xA5/0x55/noise, at shifted addresses, on 4 threads under ThreadSanitizer, under valgrind memcheck) plus lock-step original/copy operations; distinct_nontrivial = distinct (shape, flavour, mode) differential experiments and (configuration, operation) pairs on which a copy was compared with its original',
+           'variants_compared': variants, 'log_lines_compared': lines, 'copy_stats': stats, 'shapes': [s['name'] for s in allshapes], 'builtin_generator_shapes': [s['name'] for s in extra]}
+    return V.finish(cov, ['differential oracle: byte-equality of complete event logs', 'MemorySanitizer is not used (uninstrumented libstdc++); valgrind memcheck on un-prefilled storage plus the pre-fill differential cover uninitialised reads', 'copies share their original\'s context and generator by reference (library design); the scripted generator outlives both'])
 
 # ---------------------------------------------------------------------------------------------
 # C17: identifiers and structural metadata (light programs, no driver)
@@ -305,6 +432,8 @@ def main():
         return shape_engine(a.prop, a.tier, a.seed, a.keep_logs)
     if a.prop == 'C17':
         return id_engine(a.prop, a.tier, a.seed)
+    if a.prop == 'C10':
+        return c10_engine(a.prop, a.tier, a.seed, a.keep_logs)
     import units
     if a.prop in units.PROPS:
         return units.run(a.prop, a.tier, a.seed)
